@@ -2098,7 +2098,7 @@ class Node(SimComponent, ABC):
 
         to the red agent.
         """
-        self.node_scan_countdown = self.config.node_scan_duration
+        self.node_scan_countdown = max(self.config.node_scan_duration, 1)  # a duration of 0 completes on the next step
         return True
 
     def reveal_to_red(self) -> bool:
@@ -2114,7 +2114,7 @@ class Node(SimComponent, ABC):
 
         `revealed_to_red` to `True`.
         """
-        self.red_scan_countdown = self.config.node_scan_duration
+        self.red_scan_countdown = max(self.config.node_scan_duration, 1)
         return True
 
     def power_on(self) -> bool:
